@@ -117,6 +117,7 @@ impl Command for AliasCommand {
                 context.variables,
                 context.env,
                 0,
+                false,
             );
 
             match handle_option {
